@@ -166,6 +166,7 @@ func (m *vfMQ) event(ns, name string, payload []byte) bool {
 // ---------------------------------------------------------------- world
 
 type vfClient struct {
+	lagging bool // the scheduler does not run this connection's worker
 	c      *wsConn
 	sink   *vfSink
 	seen   int
@@ -314,7 +315,7 @@ func (w *vfWorld) settle() {
 			progress = true
 		}
 		for _, cl := range w.clients {
-			if w.drainConn(cl) {
+			if !cl.lagging && w.drainConn(cl) {
 				progress = true
 			}
 		}
